@@ -145,6 +145,37 @@ TE.TIES['pyfmtconv'] = {
    'bp-comments-docstrings': ed(PF, ("    def add_argument(self, key, arg):\n", "    def add_argument(self, key, arg):\n        '''register one argument'''\n"), ("        i = _info\n        for flag, count", "        i = _info\n        # the flags, one by one:\n        for flag, count")),
   }}
 
+CK = 'lib/check/__init__.py'
+TE.TIES['checkdates'] = {
+  'translators': ['gettextdate', 'checkdates'], 'module': 'I18n.Props.C18Tie', 'tests': ['tests/test_gettext.py'],
+  'edits': {
+   'seeded/C18-b': seeded('C18-b'), 'seeded/C18-c': seeded('C18-c'), 'seeded/C17-d': seeded('C17-d'),
+   'publican-prefix-short': ed(CK, ("        is_publican = content_type.startswith('application/x-publican;')", "        is_publican = content_type.startswith('application/x-publican')")),
+   'duplicates-not-sorted': ed(CK, ("                self.tag('duplicate-header-field-date', field)\n                dates = sorted(set(dates))", "                self.tag('duplicate-header-field-date', field)")),
+   'binary-exemption-both-fields': ed(CK, ("                if field.startswith('POT-') and ctx.is_binary:", "                if ctx.is_binary:")),
+   'missing-field-untagged': ed(CK, ("                self.tag('no-date-header-field', field)\n                continue", "                continue")),
+   'template-exemption-any-field': ed(CK, ("                if ctx.is_template and field.startswith('PO-') and (date == gettext.boilerplate_date):", "                if ctx.is_template and (date == gettext.boilerplate_date):")),
+   'hint-without-T': ed(CK, ("                if 'T' in date and is_publican:", "                if is_publican:")),
+   'hint-value': ed(CK, ("                    tz_hint = '-0000'", "                    tz_hint = '+0000'")),
+   'boilerplate-tag-name': ed(CK, ("                    self.tag('boilerplate-in-date', tags.safestr(field + ':'), date)", "                    self.tag('invalid-date', tags.safestr(field + ':'), date)")),
+   'except-order-swapped': ed(CK, ("                except gettext.BoilerplateDate:\n                    self.tag('boilerplate-in-date', tags.safestr(field + ':'), date)\n                    continue\n                except gettext.DateSyntaxError:\n                    self.tag('invalid-date', tags.safestr(field + ':'), date)\n                    continue",
+                                   "                except gettext.DateSyntaxError:\n                    self.tag('invalid-date', tags.safestr(field + ':'), date)\n                    continue\n                except gettext.BoilerplateDate:\n                    self.tag('boilerplate-in-date', tags.safestr(field + ':'), date)\n                    continue")),
+   'fixed-tag-unconditional': ed(CK, ("                    if date != fixed_date:\n                        self.tag('invalid-date', tags.safestr(field + ':'), date, '=>', fixed_date)", "                    self.tag('invalid-date', tags.safestr(field + ':'), date, '=>', fixed_date)")),
+   'future-inclusive': ed(CK, ("                if stamp > misc.utc_now():", "                if not (stamp < misc.utc_now()):")),
+   'ancient-then-future-order': ed(CK, ("                if stamp > misc.utc_now():\n                    self.tag('date-from-future', tags.safestr(field + ':'), date)\n                if stamp < gettext.epoch:\n                    self.tag('ancient-date', tags.safestr(field + ':'), date)",
+                                       "                if stamp < gettext.epoch:\n                    self.tag('ancient-date', tags.safestr(field + ':'), date)\n                if stamp > misc.utc_now():\n                    self.tag('date-from-future', tags.safestr(field + ':'), date)")),
+   'label-unsafe': ed(CK, ("                    self.tag('ancient-date', tags.safestr(field + ':'), date)", "                    self.tag('ancient-date', field + ':', date)")),
+   'field-order': ed(CK, ("        for field in 'POT-Creation-Date', 'PO-Revision-Date':", "        for field in 'PO-Revision-Date', 'POT-Creation-Date':")),
+   # behaviour-preserving
+   'bp-rename-locals': ed(CK, ("                try:\n                    fixed_date = gettext.fix_date_format(date, tz_hint=tz_hint)", "                try:\n                    normal = gettext.fix_date_format(date, tz_hint=tz_hint)"),
+                          ("                    if date != fixed_date:\n                        self.tag('invalid-date', tags.safestr(field + ':'), date, '=>', fixed_date)\n                stamp = gettext.parse_date(fixed_date)", "                    if date != normal:\n                        self.tag('invalid-date', tags.safestr(field + ':'), date, '=>', normal)\n                stamp = gettext.parse_date(normal)")),
+   'bp-flip-comparisons': ed(CK, ("            if len(dates) > 1:\n                self.tag('duplicate-header-field-date', field)", "            if 1 < len(dates):\n                self.tag('duplicate-header-field-date', field)"), ("                    if date != fixed_date:", "                    if fixed_date != date:")),
+   'bp-else-to-straight-line': ed(CK, ("                else:\n                    if date != fixed_date:\n                        self.tag('invalid-date', tags.safestr(field + ':'), date, '=>', fixed_date)\n                stamp",
+                                       "                if date != fixed_date:\n                    self.tag('invalid-date', tags.safestr(field + ':'), date, '=>', fixed_date)\n                stamp")),
+   'bp-label-local': ed(CK, ("                if 'T' in date and is_publican:", "                if ('T' in date) and is_publican:")),
+   'bp-comments-docstrings': ed(CK, ("    def check_dates(self, ctx):\n", "    def check_dates(self, ctx):\n        '''POT-Creation-Date and PO-Revision-Date'''\n")),
+  }}
+
 PB = 'lib/strformat/pybrace.py'
 TE.TIES['pybracefield'] = {
   'translators': ['pybracefield'], 'module': 'I18n.Props.C13Tie', 'tests': ['tests/test_strformat_pybrace.py'],
